@@ -70,7 +70,7 @@ theorem closure_sound {v : Variant} {parked : List Nat} (P : St → Prop)
     | cons s todo =>
       simp only [closure] at ht
       have hs : P s := htodo s (by simp)
-      have hnew : ∀ u ∈ ((tauSucc v parked s).filter fun t => !(acc.contains t) && !(todo.contains t)).foldl insertNew [],
+      have hnew : ∀ u ∈ ((tauSucc v parked s).filter fun t => !(acc.contains t)).foldl insertNew [],
           P u := by
         intro u hu
         rcases mem_foldl_insertNew _ [] u hu with h | h
